@@ -1181,12 +1181,13 @@ package keyvalue
 //@   requires (tsMem(store) || tsSer(store)) && len(paths) < 1<<30
 //@   modifies held(memStoreOf(store.store).mu), world()
 //@   tracks getFileRecords
-//@   loop 1 invariant "shape" rangeindex >= -1 && rangeindex < max(len(paths), 1) && (len(paths) > 0 || rangeindex == -1) &&
+//@   loop 1 invariant "whole-look-up-failed" len(infos) == len(paths) && len(errs) == len(paths) && fresh(infos) && fresh(errs) && forall(j, 0, len(paths), infos[j] == nil)   // only reachable with a foreign TransactionStore
+//@   loop 2 invariant "shape" rangeindex >= -1 && rangeindex < max(len(paths), 1) && (len(paths) > 0 || rangeindex == -1) &&
 //@                      len(infos) == len(paths) && len(errs) == len(paths) && fresh(infos) && fresh(errs) && len(results) == len(paths) &&
 //@                      implies(tsIsMem(store), tsMem(store) && world() == old(world())) && implies(!tsIsMem(store), tsSer(store)) &&
 //@                      called("getFileRecords") && result("getFileRecords", 0) == results && result("getFileRecords", 1) == nil
-//@   loop 1 invariant "results" implies(tsIsMem(store), forall(j, 0, len(paths), resFor(results[j], store, paths[j]))) && implies(!tsIsMem(store), forall(j, 0, len(paths), resUsable(results[j])))
-//@   loop 1 invariant "infos" implies(tsIsMem(store), forall(j, 0, rangeindex + 1, infoFor(infos[j], errs[j], store, paths[j]))) &&
+//@   loop 2 invariant "results" implies(tsIsMem(store), forall(j, 0, len(paths), resFor(results[j], store, paths[j]))) && implies(!tsIsMem(store), forall(j, 0, len(paths), resUsable(results[j])))
+//@   loop 2 invariant "infos" implies(tsIsMem(store), forall(j, 0, rangeindex + 1, infoFor(infos[j], errs[j], store, paths[j]))) &&
 //@                      implies(!tsIsMem(store), forall(j, 0, rangeindex + 1, serInfo(infos[j], errs[j], results[j], paths[j])))
 //@   ensures "shape" len(infos) == len(paths) && len(errs) == len(paths) && fresh(infos) && fresh(errs)
 //@   ensures "infos" implies(tsIsMem(store), forall(j, 0, len(paths), infoFor(infos[j], errs[j], store, paths[j])) && world() == old(world()))
